@@ -9,7 +9,7 @@ RULE = ("cases = exactly singular matrices with a provable floating-point outcom
         "made identically zero inside an otherwise strictly dominant matrix, S5 an independent block with two exactly equal columns "
         "whose elimination is exact (entries +-1, +-1/2), plus (class kept apart as a listed finding) S2/S3/S4 structurally rank-deficient "
         "patterns that leave a column without any candidate row; x s/d/c/z x simple driver / p?gstrf x NC/NR x orderings x tunables "
-        "(zero column inside relaxed or multi-column supernodes) x nprocs 1..6 x controlled schedules; oracle = normal return, 0<info<=n, "
+        "(zero column inside relaxed or multi-column supernodes) x nprocs 1..6 x controlled schedules, plus call histories in which a refactorization (refact=YES, usepr YES/NO) meets an identically zero column; oracle = normal return, 0<info<=n, "
         "info-1 = first exactly-zero diagonal entry of the returned U, info = position (in the returned A*Pc order) of the first singular "
         "column, B bit-identical, perms bijective, L/U well-formed (C09 predicate) and destroyable under ASan. "
         "non-trivial = the singular column is not the last one and nprocs>=2 with >=2 threads taking panels, or it lies in a supernode "
@@ -79,18 +79,45 @@ def c06_case(draw, nmax=40):
     return case
 
 
+@st.composite
+def c06_history(draw, nmax=30, maxlen=6):
+    """singular steps inside call histories: a refactorization (with and without reuse of the old row order) of values with an
+    identically zero column after a successful factorization, followed by further calls and the destroy routines"""
+    from props.hist import hist_case
+    case = draw(hist_case(nmax=nmax, maxlen=maxlen, allow_singular=True))
+    ops = [o.replace("trans=C", "trans=T") for o in case["ops"]]      # conjugate-transpose solves are C07's subject (listed finding D3c)
+    if not any("vals=zerocol" in o for o in ops):
+        have = False
+        for o in ops:
+            if o.startswith("FIRST"): have = True
+            elif o.startswith("DESTROY"): have = False
+        if not have: ops.append("FIRST P=1 u=1.0")
+        ops.append("REFACT P=%d u=1.0 usepr=%d vals=zerocol vseed=%d" % (draw(st.sampled_from([1, 2])), draw(st.sampled_from([0, 1])), draw(st.integers(1, 10 ** 6))))
+        if draw(st.booleans()): ops.append("REFACT P=1 u=1.0 usepr=%d vals=redraw vseed=%d" % (draw(st.sampled_from([0, 1])), draw(st.integers(1, 10 ** 6))))
+    case["ops"] = ops
+    s = case["set"]; s["prop"] = "C08"; s["via"] = "history"; s.setdefault("u", 1.0); s.setdefault("P", 1)
+    case["kind"] = "history"
+    return case
+
+
 def strategy(tier):
-    return c06_case(40 if tier == "quick" else 120)
+    if tier == "quick":
+        return st.one_of(c06_case(40), c06_case(40), c06_case(40), c06_history())
+    return st.one_of(c06_case(120), c06_case(120), c06_case(120), c06_history(60, 12))
 
 
 def nontrivial(case, v):
     f = v.get("f", {}); s = case["set"]
+    if case["kind"] == "history": return f.get("singular_steps", 0) > 0
     if case["kind"] not in ("S1", "S5"): return False
     info = f.get("info", 0); n = s["n"]
     return (0 < info < n and s.get("P", 1) >= 2 and f.get("thr_panels", 0) >= 2) or (0 < info and f.get("in_supernode", 0) >= 2)
 
 
 def classify(case, v):
+    if case["kind"] == "history":
+        from props.hist import hist_classes
+        return ["kind=history"] + hist_classes(case, v)
     labs = std_classes(case, v); f = v.get("f", {})
     labs.append("kind=" + case["kind"]); labs.append("via=" + case["set"]["via"])
     if f.get("no_candidate", 0): labs.append("no_candidate_row_event")
